@@ -844,7 +844,7 @@ def gen_case(rng, profile=None):
     if paired and rng.random() < 0.3:
         r2max = rng.choice([8, 15, 120])  # very different R1/R2 lengths: chunk limits differ
     records = gen_records(rng, n, paired, fastq, ad1, ad2, P["maxlen"], r2max, P["upper_only"], times, revcomp)
-    if records and big and rng.random() < 0.5:
+    if records and big and rng.random() < (0.5 if big < 3 else 0.8):
         # a file whose composition changes along its length (a run that starts badly): the first part
         # holds mostly very short reads, so what each chunk contributes to each output file varies
         cut = int(len(records) * rng.uniform(0.2, 0.7))
